@@ -5,6 +5,11 @@ ROOT = os.path.dirname(os.path.dirname(os.path.abspath(__file__)))
 BASE_OFF = "cd /repo && env -u BUIDL_VERIF_TRACE /venv/bin/python -m pytest -ra -q -p no:cacheprovider --timeout=900 --continue-on-collection-errors"
 
 CLAIMED = {
+ "C06": dict(
+   text="TLC explores a bounded adversary that assembles spends of every standard output kind item by item (all scriptSig/witness sequences up to a bound over valid, foreign and junk items) against the byte-level reference verifier SpendRef (P2SH/BIP141/BIP143/BIP341/BIP342 with ideal-signature oracles) and checks that only authorised spends are accepted and the honest spend is accepted; the whole explored universe is exported and replayed through Tx.verify_input with real keys, signatures and scripts. In addition every honest spend built with the library's signing helpers and every mutation of the property's catalogue is run through verify_input and decided by TLC (honest => accepted, accepted => authorised).",
+   design="3/C06, Appendix A.3",
+   note="Trusted: TLC, SpendRef.tla as transcription of the consensus spend rules, ideal signatures (forgery is C01/C02), by-construction oracles of the harness (who signed what, which control block commits to which key), hashlib for hash160/sha256 rows. Key material, amounts and m-of-n beyond the enumerated quorums are sampled.",
+   technique="TLA+ reference spend verifier + TLC bounded-adversary model checking, exported universe replayed into verify_input, TLC validation of mutated real spends"),
  "C04": dict(
    text="TLC model-checks the wire-codec laws (round trip, witness stripping, txid independent of witness data / bound to every non-witness field) over every transaction reachable by a bounded number of API edits in a boundary-rich universe, and the fetcher/cache machine against every server answer; it then evaluates the TxWire specification on the logged fields and bytes of serialize/parse/id calls on random and boundary transactions (every push length, varint boundaries at 253/300 inputs and outputs, amounts to 2^64-1, large witness items) built through the real API; fetcher behaviours are replayed through TxFetcher.fetch with a stubbed server.",
    design="3/C04",
